@@ -91,7 +91,9 @@ pub fn dash(lines: &[Polyline], array: &[f64], offset: f64, tol: f64) -> Option<
                     out.ambiguous = true;
                 }
             }
-            if s1 - s0 < tol {
+            // a short on-interval is only well defined when it is a whole dash entry (a "dot"),
+            // not the clipped remainder of one
+            if s1 - s0 < tol && !arr.iter().step_by(2).any(|d| (*d - (s1 - s0)).abs() < 1e-12) {
                 out.ambiguous = true;
             }
         }
